@@ -129,6 +129,15 @@ def decode_objarr(r: R, depth: int = 0) -> dict:
     rank = r.u8()
     dims = tuple(r.u32() for _ in range(rank))
     out = {"tag": tag, "dims": dims, "self": selfser, "at": at}
+    # a corrupt shape must not make the decoder loop over billions of (possibly empty) elements
+    remaining = r.end - r.pos
+    n_elem = _vol(dims) if rank else 0
+    if tag == T_CHAR and rank and (_vol(dims[1:]) > max(1, remaining) + 1 or dims[0] * _vol(dims[1:]) > remaining):
+        raise DecodeError(f"char array at {at} with dims {dims} cannot fit in the {remaining} bytes of its extent")
+    if tag in (T_LOGICAL, T_CELL, T_STRUCT) and n_elem > remaining + 1:
+        raise DecodeError(f"array at {at} (tag {tag}) with dims {dims} cannot fit in the {remaining} bytes of its extent")
+    if tag == T_F64 and n_elem * 8 > remaining:
+        raise DecodeError(f"f64 array at {at} with dims {dims} cannot fit in the {remaining} bytes of its extent")
     if tag == T_CHAR:
         if rank == 0:
             out["data"] = [""]
